@@ -3,5 +3,5 @@ CONSTANTS
   MCKinds = {"tx", "byron_ebb_header", "byron_header", "native_script", "plutus_v2"}
 INIT MCInit
 NEXT MCNext
-INVARIANTS FactsTrue Sound Complete Distinguishes
+INVARIANTS FactsTrue Sound Complete Distinguishes FindSound
 CHECK_DEADLOCK FALSE
